@@ -166,6 +166,77 @@ def promote_ops(path):
     return []
 
 
+def generation_ranges(repo):
+    """the integer ranges `gen_data` draws from, per (type, logical type): every
+    `return random.randint(A, B)` with its enclosing `record_type == T` / `logical_type == L` tests,
+    A and B evaluated with the module constants (utils.py and const.py)"""
+    fa = os.path.join(repo, "fastavro")
+    env = {}
+    for f in ("const.py", "utils.py"):
+        try:
+            e, _ = module_consts(os.path.join(fa, f))
+            env.update(e)
+        except Exception:
+            pass
+    import datetime as _dt
+    tree = ast.parse(open(os.path.join(fa, "utils.py")).read())
+
+    def evx(node):
+        # datetime.date.max.toordinal()
+        if isinstance(node, ast.Call) and isinstance(node.func, ast.Attribute) and node.func.attr == "toordinal" \
+                and ast.unparse(node.func.value) in ("datetime.date.max", "date.max"):
+            return _dt.date.max.toordinal()
+        if isinstance(node, ast.BinOp):
+            l, r = evx(node.left), evx(node.right)
+            if isinstance(node.op, ast.Add):
+                return l + r
+            if isinstance(node.op, ast.Sub):
+                return l - r
+            if isinstance(node.op, ast.Mult):
+                return l * r
+            if isinstance(node.op, ast.Pow):
+                return l ** r
+            raise Unsupported("op")
+        if isinstance(node, ast.UnaryOp) and isinstance(node.op, ast.USub):
+            return -evx(node.operand)
+        return ev(node, env)
+
+    out = []
+    for fn in tree.body:
+        if not (isinstance(fn, ast.FunctionDef) and fn.name == "gen_data"):
+            continue
+
+        def conds(test):
+            """{variable: [constants]} for tests of the form v == C (or-ed)"""
+            res = {}
+            parts = test.values if isinstance(test, ast.BoolOp) and isinstance(test.op, ast.Or) else [test]
+            for c in parts:
+                if (isinstance(c, ast.Compare) and isinstance(c.left, ast.Name) and len(c.ops) == 1 and isinstance(c.ops[0], ast.Eq)
+                        and isinstance(c.comparators[0], ast.Constant)):
+                    res.setdefault(c.left.id, []).append(c.comparators[0].value)
+            return res
+
+        def walk(stmts, ctx):
+            for st in stmts:
+                if isinstance(st, ast.If):
+                    c = conds(st.test)
+                    ctx2 = dict(ctx)
+                    for k, v in c.items():
+                        ctx2[k] = v
+                    walk(st.body, ctx2)
+                    walk(st.orelse, ctx)
+                elif isinstance(st, ast.Return) and isinstance(st.value, ast.Call) and ast.unparse(st.value.func) == "random.randint":
+                    try:
+                        a, b = evx(st.value.args[0]), evx(st.value.args[1])
+                    except Exception:
+                        a = b = None
+                    for rt in ctx.get("record_type", ["?"]):
+                        for lt in ctx.get("logical_type", [""]):
+                            out.append((rt, lt, a, b))
+        walk(fn.body, {})
+    return sorted(out, key=lambda x: (x[0], x[1]))
+
+
 def lean_str(s):
     return '"' + s.replace("\\", "\\\\").replace('"', '\\"') + '"'
 
@@ -234,6 +305,15 @@ def render(repo):
     out.append("]\n")
     out.append("def promoteOps : List (String × String × String) := [")
     out.append(",\n".join("  (%s, %s, %s)" % (lean_str(a), lean_str(b), lean_str(c)) for a, b, c in pops))
+    out.append("]\n")
+    try:
+        gr = generation_ranges(repo)
+    except Exception:
+        gr = []
+    out.append("/-- (type, logical type, low, high) of every `random.randint` of `gen_data`; an unevaluable bound is rendered as an empty range -/")
+    out.append("def genRanges : List (String × String × Int × Int) := [")
+    out.append(",\n".join("  (%s, %s, %d, %d)" % (lean_str(a), lean_str(b), (c if c is not None else 1), (d if d is not None else 0))
+                          for a, b, c, d in gr))
     out.append("]\n")
     out.append("end Gen")
     return "\n".join(out) + "\n"
